@@ -122,8 +122,13 @@ func (s *Swarm[T]) Tell(ctx context.Context, dst Addr[T], data p2p.IOVec) error 
 				return err
 			}
 		}
-		_, err = data.WriteTo(stream)
-		return err
+		if _, err = data.WriteTo(stream); err != nil {
+			// the receiver takes everything up to the end of the stream as the message:
+			// abort the stream instead of ending it after a partial write.
+			stream.CancelWrite(0)
+			return err
+		}
+		return nil
 	})
 	if isSessionReplaced(err) {
 		return s.Tell(ctx, dst, data)
